@@ -273,6 +273,10 @@ def observe_views(case):
             res.append(ob)
         paths["at"] = res
     o["paths"] = paths
+    tr = tskit.Tree(ts, **kw)
+    while tr.next():
+        pass
+    o["cleared"] = obs_tree(ts, tr, inv, full=False)
     # edge diffs, all four flavours
     diffs = {}
     for name, kwargs in (("fwd", {}), ("fwd_term", {"include_terminal": True}),
@@ -835,6 +839,23 @@ def oracle_views(case, obs):
     check_ts(desc, case, obs, F)
     bps = [2 * b for b in gen_ts.breakpoints(desc)]
     nT = len(bps) - 1
+    if "cleared" in obs:
+        c = obs["cleared"]
+        N = len(desc["nodes"])
+        smp = sample_ids(desc)
+        tr = set(case.get("tracked") or [])
+        if c["index"] != -1 or c["interval"] != [0, 0]:
+            F("cleared-position", "index %r interval %r" % (c["index"], c["interval"]))
+        if any(x != NULL for x in c["parent_array"]) or c["num_edges"] != 0 or any(x != NULL for x in c["edge_array"]):
+            F("cleared-parent", "%r" % (c["parent_array"],))
+        if c["sites"] or c["num_sites"] != 0 or c["mutations"]:
+            F("cleared-sites", "null tree lists sites %r" % (c["sites"],))
+        if c["num_samples"] != [1 if u in smp else 0 for u in range(N)] + [len(smp)]:
+            F("cleared-num_samples", "%r" % (c["num_samples"],))
+        if c["num_tracked"] != [1 if u in tr else 0 for u in range(N)] + [len(tr)]:
+            F("cleared-num_tracked", "null tree num_tracked %r, tracked %r" % (c["num_tracked"], sorted(tr)))
+        if c["roots"] != (smp if case["thr"] == 1 else []):
+            F("cleared-roots", "%r" % (c["roots"],))
     for path, trees in obs["paths"].items():
         if path in ("trees", "aslist", "at_index", "at_index_neg"):
             exp_idx = list(range(nT))
@@ -1016,6 +1037,11 @@ def observe_sweep(case):
             out += [[inv[float(iv.left)], inv[float(iv.right)]], [int(e.id) for e in eo], [int(e.id) for e in ei]]
         return out
     trees = [impl_tree_obs(ts, t, inv, case["sample_lists"], case["queries"]) for t in ts.trees(**kw)]
+    import tskit
+    tr = tskit.Tree(ts, **kw)
+    while tr.next():
+        pass
+    trees.append(impl_tree_obs(ts, tr, inv, case["sample_lists"], False))   # null state after the last tree
     sites = {"pos": [inv[float(p)] for p in ts.sites_position],
              "muts": [[int(a), int(b)] for a, b in zip(ts.mutations_site, ts.mutations_node)],
              "obs": [[int(s.id) for s in t.sites()] for t in ts.trees()] + [[int(m.edge) for m in ts.mutations()]]}
